@@ -9,7 +9,7 @@ META = dict(
          "decoding into a Go map (members by key, last repeated key wins, numbers as float64) is modelled and proved canonical, and 're-parsing a formatted header never changes "
          "or loses annotations' is proved at full strength for ANY title line the parser accepts (C02_reparse_keeps_annotations / _record: text before/after the object, "
          "definition appended). The number path token -> float64 -> token is transcribed for every number token; integers |x| <= 2^53 are proved fixed points, 2^53+1 is not. "
-         "The marshaller's UTF-8 validation is modelled: invalid UTF-8 provably breaks the round trip (C02_invalid_utf8_refuted), valid UTF-8 is an explicit premise. "
+         "The marshaller's UTF-8 validation is modelled: invalid UTF-8 provably breaks the round trip (C02_invalid_utf8_not_preserved), valid UTF-8 is an explicit premise. "
          "As before: the repaired brace/quote scanner delimits exactly the serialised object, folding, quality offsets, byte automata of the chunk parsers on whole batches. "
          "On every run random records and free-style JSON title lines (white space, shuffled/repeated keys, alternative escapes, integers up to 25 digits, numbers at and "
          "beyond 2^53, Unicode blanks after the object) go through the REAL writer / chunk parser / header parsers / go-json decode+encode; a Python oracle checks record equality, "
@@ -22,9 +22,10 @@ META = dict(
          "(that an integral float64 below 2^53 prints as its decimal digits is transcribed from strconv's contract, not derived from its algorithm). That a token produced by the encoder "
          "for a float is a fixed point of read-then-write is NOT proved (shortest-digits round trip): it is the decidable premise numfixed of the float64 theorems, evaluated in Coq on every generated value. Invalid UTF-8 in strings is outside the claim (it speaks of Unicode strings) but, since round 2, inside the model: decided on the real code - the marshaller writes each bad byte as "
          "the 6 characters \\ufffd, the reader returns U+FFFD, the next write emits it raw, so the value changes and the first re-write is NOT byte-identical (stable afterwards): "
-         "C02_invalid_utf8_refuted, and utf8v (all strings valid UTF-8) is an explicit premise of every theorem that goes through the decoder; measured on every run (coverage.invalid_utf8). "
+         "C02_invalid_utf8_not_preserved, and utf8v (all strings valid UTF-8) is an explicit premise of every theorem that goes through the decoder; measured on every run (coverage.invalid_utf8). "
          "Not modelled: the OBI-style header parser beyond the empty definition (guessed parser on a title not starting with a brace), a non-string 'definition' member followed by text, "
-         "numbers beyond the float64 range (the reader dies), raw NUL in strings (go-json refuses it). The chunk splitter belongs to C01 (exercised through obiconvert). Quality offsets on the command line: only --solexa "
+         "raw NUL in strings (go-json refuses it). Numbers beyond the float64 range: the real reader dies (ParseFloat), the model's jdec keeps the token; the correspondence accepts a dead reader "
+         "exactly when a number token of the title line is beyond the range (tok_finite), so the float64 theorems speak of title lines whose numbers are finite float64s. The chunk splitter belongs to C01 (exercised through obiconvert). Quality offsets on the command line: only --solexa "
          "(input 64) exists; output 64 is reachable programmatically only and is covered through the library calls. Defect fixed in round 1: escaped quotes in the title-line scanner.")
 TRUSTED = ["go-json decoder/encoder vs the model's jparse / jdec renum64 / ser: tied by correspondence on every generated value, record and free-style title line (CSer, CDec, CHdr), not by proof; "
            "on free text one direction only (model accepts => go-json accepts, same annotations)",
